@@ -760,6 +760,8 @@ def gen_c07(rng, sess):
         elif r < 0.44 and n and len(col) <= 12:
             # the table in use replaced by a derivation of itself (repetition, t + t, copy) AFTER look-ups have warmed its
             # caches: for the model a new table with the derived columns
+            # (the driver applies the MODEL's own mulT / addT / copyT to its current table on a `via_derive` line and checks the
+            # result against the `cols` computed here: Driver/Table.lean::viaDerive, theorems C07_*_with_derivations)
             how = rng.choice([["mul", 2], ["mul", 3], ["add_self"], ["copy"]])
             k = how[1] if how[0] == "mul" else (2 if how[0] == "add_self" else 1)
             sess.step({"op": "lookup", "api": "get_index", "row": gen_row(rng, col, names)})
